@@ -39,6 +39,10 @@ var keyPool = []string{"k", "key", "", "a b", "Z", "é", "k2", "x.y", "0", "q\""
 
 var floatPool = []float64{0, 1, -1, 0.5, -2.25, 3.75, 1024.125, 1e6, 100, 0.125, 65536.5, 1e21, 7, 2.5, -0.75}
 
+// float64Pool16: float64 values a float32 cannot hold (C16 only: the round trip of a float64 FIELD).
+var float64Pool16 = []float64{16777217, -16777217, 0.1, 1.0 / 3, 3.4028234663852886e38, 3.4028235677973366e38, 1e39,
+	4294967295.5, 123456789.12345678, 1.7976931348623157e308, 5e-324, -2.2250738585072014e-308}
+
 type typeGen struct {
 	r       *lib.Rng
 	names   []string
@@ -206,6 +210,20 @@ var namedTypes = []reflect.Type{
 	reflect.TypeOf(pa.Outer{}), reflect.TypeOf(pb.Outer{}), reflect.TypeOf(pa.Tagged{}), reflect.TypeOf(pa.Emb{}),
 }
 
+// namedTypes16 are further named types only the C16 streams use (the C15 streams keep their pool):
+// embedded structs and pointers in non-first position, every numeric width, and function-local
+// types that share name AND package path (pa.Samples) or the bare name only (pb.Sample).
+var namedTypes16 = append([]reflect.Type{
+	reflect.TypeOf(pa.EmbMid{}), reflect.TypeOf(pa.EmbTag{}), reflect.TypeOf(pa.Widths{}), reflect.TypeOf(pa.WideIn{}),
+	reflect.TypeOf(pa.TLeaf{}), pb.Sample(),
+}, pa.Samples()...)
+
+var allNamed16 = append(append([]reflect.Type{}, namedTypes...), namedTypes16...)
+
+// c16Bounds: the ends of every integer width and their neighbours (within ±2^53, see intVal).
+var c16Bounds = []int64{127, 128, 255, 256, 32767, 32768, 65535, 65536, 1<<31 - 1, 1 << 31, 1<<32 - 1, 1 << 32, 1 << 53,
+	-128, -129, -32768, -32769, -(1 << 31), -(1 << 31) - 1, -(1 << 32), -(1 << 53)}
+
 // ---- values ------------------------------------------------------------------------------------
 
 type valGen struct {
@@ -224,6 +242,11 @@ func (vg *valGen) intVal(k int) (int64, uint64) {
 		max := -(min + 1)
 		if vg.c16 && bits == 64 {
 			min, max = -(1 << 53), 1<<53
+		}
+		if vg.c16 && vg.r.Intn(3) == 0 {
+			if b := lib.Pick(vg.r, c16Bounds); b >= min && b <= max {
+				return b, 0
+			}
 		}
 		switch vg.r.Intn(8) {
 		case 0:
@@ -248,6 +271,11 @@ func (vg *valGen) intVal(k int) (int64, uint64) {
 	} else if !vg.bigUint {
 		max = math.MaxInt64
 	}
+	if vg.c16 && vg.r.Intn(3) == 0 {
+		if b := lib.Pick(vg.r, c16Bounds); b >= 0 && uint64(b) <= max {
+			return 0, uint64(b)
+		}
+	}
 	switch vg.r.Intn(6) {
 	case 0:
 		return 0, 0
@@ -268,6 +296,9 @@ func (vg *valGen) fill(v reflect.Value, depth int) {
 		v.SetBool(r.Bool())
 	case reflect.Float32, reflect.Float64:
 		f := lib.Pick(r, floatPool)
+		if vg.c16 && v.Kind() == reflect.Float64 && r.Intn(3) == 0 {
+			f = lib.Pick(r, float64Pool16)
+		}
 		if v.Kind() == reflect.Float32 && !float32Safe(f) {
 			f = 0.5
 		}
